@@ -991,7 +991,7 @@ func SplitMrt(data []byte, atEOF bool) (advance int, token []byte, err error) {
 	if errh != nil {
 		return 0, nil, errh
 	}
-	totlen := int(hdr.Len + MRT_COMMON_HEADER_LEN)
+	totlen := int(hdr.Len) + MRT_COMMON_HEADER_LEN
 	if len(data) < totlen { // need to read more
 		return 0, nil, nil
 	}
